@@ -24,6 +24,19 @@ GEN_FILE = os.path.join(vlib.GEN, "GenDecisions.v")
 MANIFEST = os.path.join(vlib.CACHE, "gen_decisions_manifest.json")
 BRIDGE = os.path.join(vlib.COQ, "Proofs", "GenBridge.v")
 STATEMENTS = os.path.join(vlib.COQ, "Properties", "Gen.v")
+# Two families of generated definitions, each with its own spec, generated file, bridge file and statement file, so that
+# a source change in the glue code (junit writer, displayer, TestSettings loop, execute stream, run_count, dispatcher
+# run loop, signal_str) does not make the checks wired only to the decision functions re-probe their targets.
+FAMILIES = {
+    "decisions": dict(spec=SPEC, gen_file=GEN_FILE, manifest=MANIFEST, bridge=BRIDGE, statements="Gen",
+                      gen_vo="gen/GenDecisions.vo", bridge_vo="Proofs/GenBridge.vo", spec_rel="harness/decisions.json",
+                      gen_rel="coq/gen/GenDecisions.v"),
+    "glue": dict(spec=os.path.join(vlib.HARNESS, "decisions_glue.json"), gen_file=os.path.join(vlib.GEN, "GenGlue.v"),
+                 manifest=os.path.join(vlib.CACHE, "gen_glue_manifest.json"),
+                 bridge=os.path.join(vlib.COQ, "Proofs", "GlueBridge.v"), statements="GenGlue",
+                 gen_vo="gen/GenGlue.vo", bridge_vo="Proofs/GlueBridge.vo", spec_rel="harness/decisions_glue.json",
+                 gen_rel="coq/gen/GenGlue.v"),
+}
 TRANSLATOR = ("harness/src/bin/decisions.rs + harness/src/decisions/*.rs (syn translator, DESIGN 11.7; scoped.rs: fragments of "
               "large functions as functions of declared free variables)")
 ALLOWED_SENTENCE = re.compile(r"^(From|Module|End|Inductive|Record|Definition)\b")
@@ -40,9 +53,11 @@ def _only_definitions(text):
     return bad
 
 
-def regen():
+def regen(family="decisions"):
     """-> dict(ok, hard, errors, manifest, text). ok: every request was translated. hard: nothing
     usable was produced (the generated file is left as it was)."""
+    fam = FAMILIES[family]
+    SPEC, GEN_FILE, MANIFEST = fam["spec"], fam["gen_file"], fam["manifest"]
     binary, err = vlib.build_harness()
     if binary is None:
         return dict(ok=False, hard=True, errors=["harness build failed: " + err[-1500:]], manifest=None, text=None)
@@ -73,9 +88,9 @@ def regen():
 
 # --------------------------------------------------------------------------- the bridge file
 
-def blocks():
+def blocks(family="decisions"):
     """Proofs/GenBridge.v cut at its markers -> {name: dict(needs, text, lemmas, uses)} (ordered)"""
-    src = open(BRIDGE).read()
+    src = open(FAMILIES[family]["bridge"]).read()
     parts = re.split(r"^\(\* == block (\w+)(?: \(needs ([\w ]+)\))? == \*\)\n", src, flags=re.M)
     out = {}
     for i in range(1, len(parts), 3):
@@ -99,8 +114,8 @@ def closure(bl, name):
     return order
 
 
-def theorems_of(target):
-    return [n for n in vlib.theorem_names("Gen") if n.endswith("_source_" + target)]
+def theorems_of(target, family="decisions"):
+    return [n for n in vlib.theorem_names(FAMILIES[family]["statements"]) if n.endswith("_source_" + target)]
 
 
 def _probe(bl, target, timeout=180):
@@ -128,12 +143,13 @@ def _probe(bl, target, timeout=180):
     return True, axioms, ""
 
 
-def _assumptions_of(names):
+def _assumptions_of(names, family="decisions"):
     """Print Assumptions of the given theorems of Properties/Gen.v by a fresh coqc -> ({name: [axioms]} or None, output)"""
     os.makedirs(vlib.GEN, exist_ok=True)
-    path = os.path.join(vlib.GEN, "assump_Gen_%d.v" % os.getpid())
+    st = FAMILIES[family]["statements"]
+    path = os.path.join(vlib.GEN, "assump_%s_%d.v" % (st, os.getpid()))
     with open(path, "w") as f:
-        f.write("From NextestModel Require Import Properties.Gen.\n")
+        f.write("From NextestModel Require Import Properties.%s.\n" % st)
         for n in names:
             f.write(f'Goal True. idtac "@@ {n}". exact I. Qed.\nPrint Assumptions {n}.\n')
     rc, o, e = vlib.sh(["coqc", "-noglob", "-Q", ".", "NextestModel", path], cwd=vlib.COQ, timeout=600)
@@ -155,9 +171,13 @@ def _assumptions_of(names):
     return res, o + e
 
 
-def check_targets(targets, rg):
+def check_targets(targets, rg, family="decisions"):
     """-> {target: dict(ok, error, theorems, axioms, source)}"""
-    bl = blocks()
+    fam = FAMILIES[family]
+
+    def theorems_of(t, _f=family):
+        return globals()["theorems_of"](t, _f)
+    bl = blocks(family)
     res = {}
     defs = {d["coq"]: d for d in (rg["manifest"] or {}).get("definitions", [])}
     present = set(re.findall(r"[A-Za-z_][A-Za-z0-9_']*", vlib.strip_comments(rg["text"] or "")))
@@ -171,18 +191,18 @@ def check_targets(targets, rg):
 
     for t in targets:
         if t not in bl:
-            res[t] = dict(ok=False, error=f"no block `{t}` in Proofs/GenBridge.v", theorems=[], axioms={}, source={})
+            res[t] = dict(ok=False, error=f"no block `{t}` in {os.path.basename(fam['bridge'])}", theorems=[], axioms={}, source={})
     todo = [t for t in targets if t not in res]
     if rg["hard"]:
         for t in todo:
             res[t] = dict(ok=False, error="translator failed: " + "; ".join(rg["errors"])[-1800:],
                           theorems=theorems_of(t), axioms={}, source={})
         return res
-    ok_all, out = vlib.coq_make(["gen/GenDecisions.vo", "Proofs/GenBridge.vo", "Properties/Gen.vo"], timeout=900)
+    ok_all, out = vlib.coq_make([fam["gen_vo"], fam["bridge_vo"], "Properties/%s.vo" % fam["statements"]], timeout=900)
     if ok_all and rg["ok"]:
         # (only the theorems of the wanted targets: Print Assumptions walks the whole proof term, and some of the
         # case analyses are large)
-        ax, aout = _assumptions_of(sorted({n for t in todo for n in theorems_of(t)}))
+        ax, aout = _assumptions_of(sorted({n for t in todo for n in theorems_of(t)}), family)
         for t in todo:
             ths = theorems_of(t)
             if ax is None or not ths or any(n not in ax for n in ths):
@@ -195,7 +215,7 @@ def check_targets(targets, rg):
                           theorems=ths, axioms={n: ax[n] for n in ths}, source=source_of(t))
         return res
     # something does not build: decide target by target
-    gen_ok, gen_out = vlib.coq_make(["gen/GenDecisions.vo"], timeout=300)
+    gen_ok, gen_out = vlib.coq_make([fam["gen_vo"]], timeout=300)
     for t in todo:
         ths = theorems_of(t)
         src = source_of(t)
@@ -205,7 +225,7 @@ def check_targets(targets, rg):
                           error="not translated: " + ", ".join(missing) + ". " + "; ".join(rg["errors"])[-1500:])
         elif not gen_ok:
             res[t] = dict(ok=False, theorems=ths, axioms={}, source=src,
-                          error="gen/GenDecisions.v does not compile:\n" + "\n".join(gen_out.strip().splitlines()[-12:]))
+                          error=fam["gen_vo"][:-1] + " does not compile:\n" + "\n".join(gen_out.strip().splitlines()[-12:]))
         else:
             ok, ax, msg = _probe(bl, t)
             if ok:
@@ -221,12 +241,12 @@ def check_targets(targets, rg):
 
 # --------------------------------------------------------------------------- wiring into a check
 
-def gate(chk, targets, coq_gate_result=None):
+def gate(chk, targets, coq_gate_result=None, family="decisions"):
     """regenerate + build + audit; failures are kept on `chk` and reported by settle() when the check
     finishes (chk.finish is wrapped so that every return path settles). Returns {target: result}."""
     t0 = time.time()
-    rg = regen()
-    res = check_targets(list(targets), rg)
+    rg = regen(family)
+    res = check_targets(list(targets), rg, family)
     pend = []
     for t in targets:
         r = res[t]
@@ -252,6 +272,7 @@ def gate(chk, targets, coq_gate_result=None):
     for t in targets:
         chk._gen_sources.update(res[t]["source"])
     chk.count("gen_bridge_wall_ms", int((time.time() - t0) * 1000))
+    chk._gen_families = sorted(set(getattr(chk, "_gen_families", [])) | {family})
     if not getattr(chk, "_gen_wrapped", False):
         chk._gen_wrapped = True
         orig = chk.finish
@@ -262,10 +283,13 @@ def gate(chk, targets, coq_gate_result=None):
             if TRANSLATOR not in tb:
                 tb.append(TRANSLATOR)
             cov = dict(extra_cov or {})
+            fams = [FAMILIES[f] for f in getattr(chk, "_gen_families", ["decisions"])]
             cov["gen_bridge"] = dict(functions=chk._gen_targets, generated_from=chk._gen_sources,
-                                     checker_cmd="decisions harness/decisions.json > coq/gen/GenDecisions.v; make -C coq "
-                                                 "Proofs/GenBridge.vo Properties/Gen.vo; Print Assumptions")
-            return orig(gate_result, checker_cmd + " ; gen-bridge: make -C coq Properties/Gen.vo", tb, cov)
+                                     checker_cmd="; ".join(
+                                         "decisions %s > %s; make -C coq %s Properties/%s.vo; Print Assumptions"
+                                         % (f["spec_rel"], f["gen_rel"], f["bridge_vo"], f["statements"]) for f in fams))
+            return orig(gate_result, checker_cmd + " ; gen-bridge: make -C coq " +
+                        " ".join("Properties/%s.vo" % f["statements"] for f in fams), tb, cov)
         chk.finish = finish
     return res
 
@@ -281,12 +305,12 @@ def settle(chk):
     pend = getattr(chk, "_gen_pending", [])
     chk._gen_pending = []
     note = ("decision functions %s are regenerated from the Rust source by the syn translator and proved equal to the "
-            "model functions for all inputs (Properties/Gen.v); the translator reads the Rust subset correctly; usize "
+            "model functions for all inputs (Properties/Gen.v, Properties/GenGlue.v); the translator reads the Rust subset correctly; usize "
             "is unbounded N (overflow out of scope); views reduce ExecutionStatuses / ExecuteStatus to the observers "
             "listed in harness/decisions.json; fragments of large functions (call arguments, lets, struct-literal "
             "fields, loop tails, leading guards, call lists on a Command) are found syntactically and are functions of "
             "the free variables declared in harness/decisions.json -- what is left out is named in the header of "
-            "coq/gen/GenDecisions.v" % ", ".join(getattr(chk, "_gen_targets", [])))
+            "coq/gen/GenDecisions.v / coq/gen/GenGlue.v" % ", ".join(getattr(chk, "_gen_targets", [])))
     if isinstance(chk.assumptions, list) and note not in chk.assumptions:
         chk.assumptions.append(note)
     if not pend:
